@@ -18,7 +18,9 @@ package transform
 import (
 	"errors"
 	"fmt"
+	"math"
 	"sync"
+	"sync/atomic"
 
 	internal "github.com/flanglet/kanzi-go/v2/internal"
 )
@@ -470,6 +472,11 @@ func (this *BWT) inverseBiPSIv2(src, dst []byte, count int) (uint, uint, error) 
 		}
 	}
 
+	// The tasks look for the first bucket that ends after the current position
+	// with a 16 bit index that wraps around: make sure the scan always stops,
+	// whatever positions corrupted data lead to.
+	buckets[65535] = math.MaxInt
+
 	chunks := GetBWTChunks(count)
 
 	// Build inverse
@@ -481,23 +488,45 @@ func (this *BWT) inverseBiPSIv2(src, dst []byte, count int) (uint, uint, error) 
 		ckSize++
 	}
 
+	// The primary indexes come from the bitstream: check them before they are
+	// used as array indexes by the tasks
+	for i := 0; i < chunks; i++ {
+		if int(this.PrimaryIndex(i)) > count {
+			return 0, 0, errors.New("Invalid input: corrupted BWT primary index")
+		}
+	}
+
 	nbTasks := min(int(this.jobs), chunks)
 	jobsPerTask, _ := internal.ComputeJobsPerTask(make([]uint, nbTasks), uint(chunks), uint(nbTasks))
 	var wg sync.WaitGroup
+	var failed int32
 
 	for j, c := 0, 0; j < nbTasks; j++ {
 		wg.Add(1)
 		start := c * ckSize
 
 		go func(dst []byte, buckets []int, fastBits []uint16, indexes []uint, total, start, ckSize, firstChunk, lastChunk int) {
+			defer func() {
+				// Corrupted data can send a task out of bounds: a panic in this
+				// goroutine would kill the process, report an error instead
+				if r := recover(); r != nil {
+					atomic.StoreInt32(&failed, 1)
+				}
+
+				wg.Done()
+			}()
+
 			this.inverseBiPSIv2Task(dst, buckets, fastBits, indexes, total, start, ckSize, firstChunk, lastChunk)
-			wg.Done()
 		}(dst, buckets[:], fastBits, this.primaryIndexes[:], count, start, ckSize, c, c+int(jobsPerTask[j]))
 
 		c += int(jobsPerTask[j])
 	}
 
 	wg.Wait()
+
+	if atomic.LoadInt32(&failed) != 0 {
+		return 0, 0, errors.New("Invalid input: corrupted BWT data")
+	}
 
 	dst[count-1] = byte(lastc)
 	return uint(count), uint(count), nil
